@@ -1,10 +1,12 @@
 Require Extraction.
 Require Import ExtrOcamlBasic.
-From Zix Require Import BTreeSpec BTreeModel.
+From Zix Require Import BTreeSpec BTreeModel FaultSpec AllocModel BTreeAllocModel.
 Separate Extraction
   BTreeSpec.set_find BTreeSpec.set_insert BTreeSpec.set_remove BTreeSpec.set_succ
   BTreeSpec.set_lower_bound
   BTreeModel.empty_tree BTreeModel.insert BTreeModel.remove BTreeModel.find BTreeModel.lower_bound
   BTreeModel.clear BTreeModel.btree_size BTreeModel.btree_begin BTreeModel.iter_increment
   BTreeModel.iter_get BTreeModel.iter_equals BTreeModel.iter_is_end BTreeModel.height
-  BTreeModel.elements BTreeModel.destroy_log.
+  BTreeModel.elements BTreeModel.destroy_log
+  BTreeAllocModel.anew_op BTreeAllocModel.ainsert_op BTreeAllocModel.aremove_op BTreeAllocModel.aclear_op
+  BTreeAllocModel.afree_op BTreeAllocModel.erase_tree BTreeAllocModel.pages AllocModel.ast0.
